@@ -249,6 +249,7 @@ class Ctx:
         self.rule = ""
         self.exhaustive = False
         self.tlc_runs: list = []
+        shutil.rmtree(REPLAYS / pid, ignore_errors=True)      # replay files of earlier runs are not this run's verdicts
         self.findings = [f for f in load_findings() if f.prop == pid and f.status == "open"]
         self.finding_ids = {f.fid for f in self.findings}
 
